@@ -526,6 +526,32 @@ func (it *Interp) localVecMethod(v *LocalVec, name string, call *ast.CallExpr) V
 		return l
 	case "Dim":
 		return v.Len
+	case "Slice", "ConstSlice", "MagicSlice":
+		// sub-vector view: shares the element locations
+		if len(call.Args) == 2 {
+			i0, ok1 := constIndex(it.evalTerm(call.Args[0]))
+			i1, ok2 := constIndex(it.evalTerm(call.Args[1]))
+			n, ok3 := constIndex(v.Len)
+			if ok1 && ok2 && ok3 {
+				if i0 < 0 || i1 > n || i0 > i1 {
+					it.path.Panic = true
+					it.path.Events = append(it.path.Events, Event{Kind: "panic", Pos: call.Pos(), Msg: "vector slice out of range"})
+					it.done = true
+					return &LocalVec{Len: sym.Zero(), Cells: map[string]*Loc{}}
+				}
+				r := &LocalVec{Len: sym.Int(int64(i1 - i0)), Cells: map[string]*Loc{}}
+				for k := i0; k < i1; k++ {
+					key := sym.Int(int64(k)).String()
+					l, has := v.Cells[key]
+					if !has {
+						l = it.newLoc("cell", sym.Zero())
+						v.Cells[key] = l
+					}
+					r.Cells[sym.Int(int64(k-i0)).String()] = l
+				}
+				return r
+			}
+		}
 	case "Map":
 		if cl, ok := it.eval(call.Args[0]).(*Closure); ok {
 			it.mapCells(v, cl, call.Pos())
